@@ -246,7 +246,7 @@ pub fn const_items(id: usize, l: &Layout, words: &[u32]) -> String {
     }
     // emit
     let mut s = String::new();
-    writeln!(s, "use core::hint::black_box as bb;").unwrap();
+    writeln!(s, "use ::core::hint::black_box as bb;").unwrap();
     for (k, (c, r, _, _, _)) in g.out.iter().enumerate() {
         writeln!(s, "pub const C{}: u128 = {};", k, c).unwrap();
         writeln!(s, "fn t{}() -> u128 {{ {} }}", k, r).unwrap();
